@@ -566,8 +566,16 @@ impl<'a, 'b> Gen<'a, 'b> {
                 alts[0][0] = Pat::Int("1".into());
             }
             let guard = if self.c.chance(50) {
-                let op = *self.c.pick(&["==", "<", "&&", "||", ">=."]);
-                Some(Expr::Binary(op, Box::new(self.expr(0)), Box::new(self.expr(0))))
+                let op = *self.c.pick(&["==", "<", "&&", "||", ">=.", ">", "!="]);
+                // arithmetic is allowed in guards: the last operand then sits right before `->`
+                let rhs = if self.c.chance(110) {
+                    let ar = *self.c.pick(&["-", "+", "*", "-.", "%"]);
+                    let lit = if self.c.chance(170) { Expr::Int(self.c.pick(&["1", "2", "10"]).to_string()) } else { self.expr(0) };
+                    Expr::Binary(ar, Box::new(self.expr(0)), Box::new(lit))
+                } else {
+                    self.expr(0)
+                };
+                Some(Expr::Binary(op, Box::new(self.expr(0)), Box::new(rhs)))
             } else {
                 None
             };
